@@ -869,6 +869,15 @@ theorem WFFiles.put_wf {w : World} (n : String) {m : MapObj} (hw : w.WF) (hm : m
     · exact hm
     · exact hw.1 e (List.mem_filter.1 he).1 hev
 
+/-- binding a name to a freshly produced map keeps the world well formed -/
+theorem WFFiles.bind_wf {w : World} (n : String) {m : MapObj} (hw : w.WF) (hm : m.WF) :
+    (w.bind n m).WF := by
+  refine ⟨?_, hw.2⟩
+  intro e he hev
+  rcases List.mem_cons.1 he with rfl | he
+  · exact hm
+  · exact hw.1 e (List.mem_filter.1 he).1 hev
+
 theorem WFFiles.with_metas_wf {w : World} (ms : List (String × List (String × String)))
     (h : w.WF) : ({ w with metas := ms } : World).WF := h
 
@@ -895,7 +904,7 @@ theorem WF.opRead {w : World} (a : Args) (h : w.WF) : (opRead w a).1.WF := by
     · split
       · rename_i m hm
         obtain ⟨_, _, _, _, _, _, _, hv, _⟩ := apiRead_ok hm
-        exact with_metas_wf _ (put_wf _ h (WF.apiRead hf hm) hv)
+        exact with_metas_wf _ (bind_wf _ h (WF.apiRead hf hm))
       · exact h
 
 theorem WF.opCat {w : World} (a : Args) (h : w.WF) : (opCat w a).1.WF := by
@@ -944,7 +953,7 @@ theorem WF.opDor {w : World} (a : Args) (h : w.WF)
         split
         · rename_i d hd
           obtain ⟨h1, h2⟩ := hhp _ _ _ _ _ _ _ hm hd
-          exact put_wf _ h h1 h2
+          exact bind_wf _ h h1
         · exact h
   · split
     · rename_i fo ord hfo _
@@ -953,7 +962,7 @@ theorem WF.opDor {w : World} (a : Args) (h : w.WF)
       · split
         · rename_i m hm
           obtain ⟨hwf, _, _, _, _, hv⟩ := apiDegradeOnRead_ok hm
-          exact with_metas_wf _ (put_wf _ h hwf hv)
+          exact with_metas_wf _ (bind_wf _ h hwf)
         · exact h
       · exact h
     · exact h
